@@ -393,6 +393,7 @@ func (w *walker) havocLoop(s *state, fr *frame, h *ssa.BasicBlock) {
 		}
 		return v
 	}
+	seen := map[string]bool{}
 	hav := func(v ssa.Value) {
 		r := rootOf(v)
 		if in, ok := r.(ssa.Instruction); ok && blocks[in.Block()] {
@@ -407,7 +408,14 @@ func (w *walker) havocLoop(s *state, fr *frame, h *ssa.BasicBlock) {
 		if !ok || t.Op != "ref" {
 			return
 		}
-		s.hset(&Loc{Root: t.Loc.Root, Path: t.Loc.Path, Len: -1}, mk(fmt.Sprintf("havoc@L%d", loopOrdinal(h)), defaultOrLocal(t.Loc)))
+		hl := &Loc{Root: t.Loc.Root, Path: t.Loc.Path, Len: -1}
+		name := defaultOrLocal(t.Loc).String()
+		if !seen[name] {
+			seen[name] = true
+			// the state the loop starts from (order-free: specifications look these up by name)
+			s.events = append(s.events, fmt.Sprintf("loop L%d: %s enters as %s", loopOrdinal(h), name, s.content(refTerm(hl)).String()))
+		}
+		s.hset(hl, mk(fmt.Sprintf("havoc@L%d", loopOrdinal(h)), defaultOrLocal(t.Loc)))
 	}
 	for b := range blocks {
 		for _, in := range b.Instrs {
